@@ -50,6 +50,7 @@ type Op struct {
 	Msg    byte       `json:"msg_type"` // 1 solicit, 3 request, 5 renew
 	Relay  int        `json:"relay_depth"`
 	Link   int        `json:"relay_link,omitempty"`     // which relay agent forwarded it (link-address variant 0..2)
+	Repeat int        `json:"repeat,omitempty"`         // the message is sent this many times in a row (oracles on the last one)
 	HLife  string     `json:"hint_lifetimes,omitempty"` // preferred/valid lifetime fields of the IAPrefix hints: "" = 0/0, "p0v1800", "p3000v600", "p100v200", "max"
 	IAPDs  [][]string `json:"iapds"`                    // per IA_PD: list of symbolic hints
 	NoCID  bool       `json:"no_client_id,omitempty"`
@@ -357,7 +358,7 @@ func (s *Sys) Ops() []Op {
 }
 
 func (s *Sys) concretize(o Op) Op {
-	n := Op{Client: o.Client, Msg: o.Msg, Relay: o.Relay, NoCID: o.NoCID, Age: o.Age, Long: o.Long, Dur: o.Dur, Timers: o.Timers, Link: o.Link, HLife: o.HLife, XCode: o.XCode, XData: o.XData, XFirst: o.XFirst, IAPDs: [][]string{}}
+	n := Op{Client: o.Client, Msg: o.Msg, Relay: o.Relay, NoCID: o.NoCID, Age: o.Age, Long: o.Long, Dur: o.Dur, Timers: o.Timers, Link: o.Link, Repeat: o.Repeat, HLife: o.HLife, XCode: o.XCode, XData: o.XData, XFirst: o.XFirst, IAPDs: [][]string{}}
 	for _, hs := range o.IAPDs {
 		c := []string{}
 		for _, h := range hs {
@@ -523,6 +524,18 @@ func parseResp(b []byte) ([]respPD, error) {
 func (s *Sys) Apply(op Op, live bool) (obs string) {
 	if s.dead {
 		return "dead"
+	}
+	if op.Repeat > 1 {
+		one := op
+		one.Repeat = 0
+		n := len(s.hist)
+		for i := 0; i < op.Repeat-1 && !s.dead && !s.broken; i++ {
+			s.Apply(one, false)
+			s.hist = s.hist[:n]
+		}
+		obs = s.Apply(one, live)
+		s.hist = append(s.hist[:n], op)
+		return obs
 	}
 	s.hist = append(s.hist, op)
 	if op.Age {
@@ -904,6 +917,7 @@ func run(r *ev.Run, id string) {
 		r.Sample("graph", map[string]interface{}{"pool": p, "clients": nc, "states": res.States, "transitions": res.Transitions, "depth": res.Depth, "fixpoint": res.Fixpoint, "merge_checks": res.MergeChecks})
 	}
 	manyLeases(r, id)
+	longRun(r, id)
 	quotaLeases(r, id)
 	hintLifetimes(r, id)
 	gaps(r, id)
@@ -1049,6 +1063,26 @@ func quotaLeases(r *ev.Run, id string) {
 		}
 	}
 	r.Add("quota_sweeps", 1)
+}
+
+// longRun: thousands of messages on one handler (bookkeeping that runs "every n-th message"):
+// two clients get prefixes, the leases run out, one client renews 4200 times, a third client
+// arrives; then the first client comes back: same prefix, disjoint from the others.
+func longRun(r *ev.Run, id string) {
+	s := NewSys(r, id, Pool{"2001:db8:0:40::/58", 64}, 3, false)
+	for _, op := range []Op{{Client: "A", Msg: 1, IAPDs: [][]string{{}}}, {Client: "B", Msg: 1, IAPDs: [][]string{{}}}, {Client: "-", Age: true, IAPDs: [][]string{}}} {
+		s.Apply(s.concretize(op), true)
+	}
+	renew := s.concretize(Op{Client: "B", Msg: 5, IAPDs: [][]string{{"own1"}}})
+	renew.Repeat = 4200
+	s.Apply(renew, true)
+	for _, op := range []Op{{Client: "C", Msg: 1, IAPDs: [][]string{{"::/0", "::/0"}}}, {Client: "A", Msg: 5, IAPDs: [][]string{{"own1"}}}, {Client: "A", Msg: 3, IAPDs: [][]string{{}}}, {Client: "C", Msg: 1, IAPDs: [][]string{{"::/0", "::/0", "::/0"}}}} {
+		if s.Terminal() {
+			break
+		}
+		s.Apply(s.concretize(op), true)
+	}
+	r.Add("long_run_messages", 4210)
 }
 
 func manyLeases(r *ev.Run, id string) {
